@@ -123,7 +123,7 @@ Definition NS {A} (m : M A) : Prop := forall s, NSat s m.
 
 Lemma NS_of_NC {A} (m : M A) : NC [] n m -> NS m.
 Proof.
-  intros H s Hs Hl. apply H; [destruct Hs as (R & _); exact R|].
+  clear HF. intros H s Hs Hl. apply H; [destruct Hs as (R & _); exact R|].
   pose proof (live_le s). unfold Len in Hl. lia.
 Qed.
 
@@ -212,7 +212,7 @@ Proof. apply NS_of_NC, NCt_send_ack. lia. Qed.
 (* ---------- subscriptions ---------- *)
 
 Lemma live_bound s : length (mods s) = n -> (live s <= n)%nat.
-Proof. intros H. pose proof (live_le s). lia. Qed.
+Proof. clear HF. intros H. pose proof (live_le s). lia. Qed.
 
 Lemma NS_add_subscription c t s : m_reg (find_mod c (mods s)) = true -> NSat s (add_subscription cfg FUEL c t).
 Proof.
@@ -287,18 +287,6 @@ Lemma NCt_refuse c : NC [] n (mlog cfg FUEL 40 ;;; remove_module cfg FUEL c ;;; 
 Proof.
   apply NC_bind; [apply J_mlog_top|apply NCt_mlog; lia|]. intros _.
   apply NC_bind; [apply J_remove_module_top; intros []|apply NCt_remove_module; [intros []|lia]|]. intros _. apply NC_ret.
-Qed.
-
-Lemma J_connect_scan c me : forall others, J [] (connect_scan cfg FUEL c me others).
-Proof.
-  assert (R : J [] (mlog cfg FUEL 40 ;;; remove_module cfg FUEL c ;;; ret true)).
-  { apply J_bind; [apply J_mlog_top|]. intros _. apply J_bind; [apply J_remove_module_top; intros []|]. intros _. apply J_ret. }
-  induction others as [|m r IH]; cbn [connect_scan]; [apply J_ret|].
-  destruct (m_conn m =? c); [exact IH|].
-  destruct ((m_mod_id m =? m_mod_id me) && (m_unique m || m_unique me)); [exact R|].
-  destruct (negb (m_name me =? 0)); [|exact IH].
-  destruct ((m_unique m || m_unique me) && (m_name m =? m_name me)); [exact R|].
-  apply J_bind; [apply J_mlog_top|]. intros _. exact IH.
 Qed.
 
 Lemma NCt_connect_scan c me : forall others, NC [] n (connect_scan cfg FUEL c me others).
@@ -549,3 +537,149 @@ Proof.
 Qed.
 
 End TopFuel.
+
+(* ---------- one loop iteration ---------- *)
+
+(* total judgement: from a good state with n modules to a good state with n' modules, no crash *)
+Definition TS {A} (n n' : nat) (m : M A) : Prop :=
+  forall s, StepInv s -> Len n s -> match m s with Ok _ s' => StepInv s' /\ Len n' s' | Crash _ _ => False end.
+
+Lemma TS_bind {A B} n n1 n2 (m : M A) (k : A -> M B) : TS n n1 m -> (forall a, TS n1 n2 (k a)) -> TS n n2 (bind m k).
+Proof.
+  intros Hm Hk s Hs Hl. unfold bind. specialize (Hm s Hs Hl). destruct (m s) as [a s1|e s1]; [|exact Hm].
+  destruct Hm as [Hs1 Hl1]. exact (Hk a s1 Hs1 Hl1).
+Qed.
+
+Lemma TS_of {A} n (m : M A) : S m -> pres (Len n) m -> NS n m -> TS n n m.
+Proof.
+  intros HS HL HN s Hs Hl. specialize (HS s Hs). specialize (HL s Hl). specialize (HN s Hs Hl).
+  destruct (m s) as [a s1|e s1]; [split; assumption|exact HN].
+Qed.
+
+Lemma TS_ret {A} n (a : A) : TS n n (ret a).
+Proof. intros s Hs Hl. split; assumption. Qed.
+
+Definition acc (e : event) : nat := match e with ERound true _ _ _ => 1%nat | _ => 0%nat end.
+
+Lemma TS_accept cfg FUEL n : (2 * n + 1 <= FUEL)%nat ->
+  TS n (n + 1)
+     (mlog cfg FUEL 20 ;;;
+      modify (fun s => with_uid (with_mods s (mods s ++ [new_module (next_uid s + 1)])) (next_uid s + 1))).
+Proof.
+  intros HF. apply TS_bind with (n1 := n).
+  - apply TS_of; [apply S_mlog|apply L_mlog|apply NS_of_NC, NCt_mlog; exact HF].
+  - intros _ s Hs Hl. unfold modify. split; [apply accept_StepInv; exact Hs|].
+    unfold Len in *. simpl. rewrite app_length. simpl. lia.
+Qed.
+
+Lemma TS_wl_service cfg FUEL n (ready : list (Z * inbound)) wlv : (2 * n + 2 <= FUEL)%nat ->
+  TS n n (modify (fun s => with_wl s wlv) ;;; mapM_ (fun x => service cfg FUEL (fst x) (snd x)) ready).
+Proof.
+  intros HF. apply TS_bind with (n1 := n).
+  - apply TS_of; [apply S_modify_aux; intros; simpl; auto|apply L_modify; reflexivity|apply NS_modify].
+  - intros _. apply TS_of.
+    + apply S_mapM. intros [c ib]. apply service_S.
+    + apply pres_mapM. intros [c ib]. apply L_service.
+    + apply NS_mapM; intros [c ib]; [apply service_S|apply L_service|apply NS_service; exact HF].
+Qed.
+
+Lemma step_total cfg FUEL e n : (2 * (n + acc e) + 2 <= FUEL)%nat -> TS n (n + acc e) (step cfg FUEL e).
+Proof.
+  intros HF. destruct e as [accept ready0 writable now|c k].
+  2:{ cbn [acc]. rewrite Nat.add_0_r. intros s Hs Hl. pose proof (step_S cfg FUEL (EFault c k) s Hs) as H.
+      cbn [step] in *. unfold modify in *. split; [exact H|].
+      unfold Len in *. destruct (flookup c (faults s)) as [j|]; [destruct (j <=? 0)|]; exact Hl. }
+  intros s Hs Hl. cbn [step]. unfold bind at 1. unfold get.
+  generalize (filter (fun x : Z * inbound => m_reg (find_mod (fst x) (mods s))) ready0). intros ready.
+  revert s Hs Hl. change (TS n (n + acc (ERound accept ready0 writable now))
+    ((if accept || negb match ready with [] => true | _ :: _ => false end
+      then (if accept
+            then mlog cfg FUEL 20 ;;;
+                 modify (fun s => with_uid (with_mods s (mods s ++ [new_module (next_uid s + 1)])) (next_uid s + 1))
+            else ret tt) ;;;
+           modify (fun s => with_wl s match ready with [] => [] | _ :: _ => writable end) ;;;
+           mapM_ (fun x => service cfg FUEL (fst x) (snd x)) ready
+      else ret tt) ;;; periodic cfg FUEL now)).
+  apply TS_bind with (n1 := (n + acc (ERound accept ready0 writable now))%nat).
+  2:{ intros _. apply TS_of; [apply periodic_S|apply L_periodic|apply NS_periodic; exact HF]. }
+  destruct accept; cbn [acc orb] in *.
+  - apply TS_bind with (n1 := (n + 1)%nat); [apply TS_accept; lia|]. intros _. apply TS_wl_service. exact HF.
+  - rewrite Nat.add_0_r in *. destruct (negb match ready with [] => true | _ :: _ => false end); [|apply TS_ret].
+    apply TS_bind with (n1 := n); [apply TS_ret|]. intros _. apply TS_wl_service. exact HF.
+Qed.
+
+(* ---------- all histories ---------- *)
+
+Fixpoint accepts (es : list event) : nat :=
+  match es with
+  | [] => 0%nat
+  | ERound true _ _ _ :: r => (1 + accepts r)%nat
+  | _ :: r => accepts r
+  end.
+
+Lemma accepts_cons e r : accepts (e :: r) = (acc e + accepts r)%nat.
+Proof. destruct e as [[|] ? ? ?|? ?]; reflexivity. Qed.
+
+Lemma run_from_total cfg FUEL : forall es s n, StepInv s -> length (mods s) = n ->
+  (2 * (n + accepts es) + 2 <= FUEL)%nat ->
+  exists s', run_from cfg FUEL (Ok tt s) es = Ok tt s' /\ StepInv s'.
+Proof.
+  induction es as [|e es IH]; intros s n Hs Hl HF.
+  - exists s. split; [reflexivity|exact Hs].
+  - rewrite accepts_cons in HF. cbn [run_from].
+    pose proof (step_total cfg FUEL e n ltac:(lia) s Hs Hl) as H.
+    destruct (step cfg FUEL e s) as [u s1|x s1]; [|destruct H]. destruct H as [Hs1 Hl1]. destruct u.
+    apply (IH s1 (n + acc e)%nat Hs1 Hl1). lia.
+Qed.
+
+Theorem run_total : forall cfg FUEL es,
+  (2 * (accepts es + 1) + 2 <= FUEL)%nat ->
+  exists s, run cfg FUEL es = Ok tt s /\ StepInv s.
+Proof.
+  intros cfg FUEL es HF. unfold run, init.
+  assert (T0 : TS 1 1 (mlog cfg FUEL 20)).
+  { apply TS_of; [apply S_mlog|apply L_mlog|apply NS_of_NC, NCt_mlog; lia]. }
+  specialize (T0 init0 init0_StepInv eq_refl).
+  destruct (mlog cfg FUEL 20 init0) as [u s0|x s0]; [|destruct T0]. destruct T0 as [Hs0 Hl0]. destruct u.
+  apply (run_from_total cfg FUEL es s0 1%nat Hs0 Hl0). lia.
+Qed.
+
+Theorem run_total_never_crashes : forall cfg FUEL es,
+  (2 * (accepts es + 1) + 2 <= FUEL)%nat ->
+  match run cfg FUEL es with Ok _ _ => True | Crash _ _ => False end.
+Proof. intros cfg FUEL es HF. destruct (run_total cfg FUEL es HF) as (s & E & _). rewrite E. exact I. Qed.
+
+(* ---------- the bound is linear in the number of connections, and a linear budget is needed ----------
+   Three accepted connections subscribe to CLIENT_CLOSED and then all stop accepting writes; when the first one
+   hangs up, publishing its CLIENT_CLOSED closes the second, whose CLIENT_CLOSED closes the third: three nested
+   forward_message calls.  A budget of 2 runs out, the budget of run_total (2 * (3 + 1) + 2 = 10) does not
+   (here 3 is already enough: each level of nesting closes one more module; the factor 2 of the bound is the
+   price of the uniform rank argument of Proofs/Fuel.v). *)
+Definition ex_hdr (t nb : Z) : hdr := mkHdr t 1 0 0 0 0 nb 7.
+Definition ex_cascade : list event :=
+  [ERound true [] [] 0; ERound true [] [] 0; ERound true [] [] 0;
+   ERound false [(1, IFrame (ex_hdr MT_CONNECT 4) (InConnect 0 0)); (2, IFrame (ex_hdr MT_CONNECT 4) (InConnect 0 0));
+                 (3, IFrame (ex_hdr MT_CONNECT 4) (InConnect 0 0))] [1;2;3] 0;
+   ERound false [(1, IFrame (ex_hdr MT_SUBSCRIBE 4) (InSub MT_CLIENT_CLOSED));
+                 (2, IFrame (ex_hdr MT_SUBSCRIBE 4) (InSub MT_CLIENT_CLOSED));
+                 (3, IFrame (ex_hdr MT_SUBSCRIBE 4) (InSub MT_CLIENT_CLOSED))] [1;2;3] 0;
+   EFault 1 0; EFault 2 0; EFault 3 0;
+   ERound false [(1, IEof)] [1;2;3] 0].
+
+Example ex_cascade_accepts : (2 * (accepts ex_cascade + 1) + 2 = 10)%nat.
+Proof. reflexivity. Qed.
+
+Example ex_cascade_small_budget_runs_out :
+  match run (mkConfig 10 true) 2 ex_cascade with Crash XFuel _ => True | _ => False end.
+Proof. vm_compute. exact I. Qed.
+
+Example ex_cascade_bound_budget_ok :
+  match run (mkConfig 10 true) 10 ex_cascade with
+  | Ok _ s => map (fun m => (m_conn m, m_reg m)) (mods s) = [(0, true); (1, false); (2, false); (3, false)]
+  | Crash _ _ => False
+  end.
+Proof. vm_compute. reflexivity. Qed.
+
+Example ex_cascade_three_is_enough :
+  match run (mkConfig 10 true) 3 ex_cascade with Ok _ _ => True | Crash _ _ => False end.
+Proof. vm_compute. exact I. Qed.
